@@ -310,7 +310,7 @@ Section Refine.
     pose proof (next_small _ B L R m D Hm) as [Hn1 Hn2].
     assert (Same : forall r : res rv, r = r /\ Rel (B + 0) (L ++ blk (tokey (op_key o)) m ++ R) s).
     { intros r. split; auto. apply (rel_mono B); auto; lia. }
-    destruct o as [k vs|k vs|k v|k|k|k|k|k|k v|k]; cbn [op_key weight] in *;
+    destruct o as [k vs|k vs|k v|k|k|k|k|k|k v|k|k e]; cbn [op_key weight] in *;
       cbn [step_io spec_io lift fst snd rmap].
     - (* OPut *) destruct set.
       + pose proof (minus_dedupe_length vs (map snd m)) as Hl.
@@ -378,5 +378,6 @@ Section Refine.
       + cbn [fst snd]. apply Same.
     - (* OCnt *) rewrite (getIoVals_dec _ B L R m D Hm). cbn [rmap]. rewrite <- Hs.
       rewrite map_length. apply Same.
+    - (* ORaise *) cbn [fst snd]. apply Same.
   Qed.
 End Refine.
